@@ -221,6 +221,8 @@ func classify(err error) string {
 		return "err:unapproved"
 	case strings.Contains(m, "unknown frame response during authentication"):
 		return "err:auth-frame"
+	case strings.Contains(m, "the authenticator provided no challenger"):
+		return "err:no-challenger"
 	}
 	if _, ok := err.(gocql.RequestError); ok || strings.Contains(m, "bad credentials") {
 		return "err:server"
